@@ -86,6 +86,12 @@ Definition kalman_solve n m Pinf A H dg y : vec * vec :=
   let g := kalman_gains n m Pinf A H dg in
   let v := kalman_filter n m A H (map snd g) y in
   (vmk n (fun k => odiv K (vget K v k) (osqrt K (nth (o0 K) (map fst g) k))), map fst g).
+(* KalmanSolver.__init__ / solve_triangular.  A, H, dg are the tables of the sweep over the sorted inputs
+   (A_k = transition_matrix(x_(k-1), x_k), A_0 = transition_matrix(x_0, x_0)); the solver filters from the LAST datum to the first:
+   self.A = concatenate((A[:1], A[:0:-1])), self.H = H[::-1], gains on noise.diag[::-1], filter on y[::-1] *)
+Definition kalman_order (T : Type) (A : seq T) : seq T := take 1 A ++ rev (drop 1 A).
+Definition kalman_solver n m Pinf (A : seq mat) (H : mat) (dg y : vec) : vec * vec :=
+  kalman_solve n m Pinf (kalman_order A) (rev H) (rev dg) (rev y).
 
 (* ---------------- GaussianProcess ---------------- *)
 (* _get_alpha and the quadratic form of _compute_log_prob; the final  -0.5*quad - sum(log diagL) - n/2 log(2 pi)
